@@ -39,6 +39,52 @@ func ruleShrinklogCapture(c *Ctx) {
 	shrinklog := c.Field("internal/server", "Server", "shrinklog")
 	aofbuf := c.Field("internal/server", "Server", "aofbuf")
 	fg := newFlowGraph(info, fn.Decl.Body)
+	mentionsShrinking := func(inf *types.Info, e ast.Node) bool {
+		hit := false
+		ast.Inspect(e, func(n ast.Node) bool {
+			if se, ok := n.(*ast.SelectorExpr); ok && selField(inf, se) == shrinking {
+				hit = true
+			}
+			return true
+		})
+		return hit
+	}
+	// helpers: functions only writeAOF calls are parts of it
+	helpers := c.calledOnlyFrom("writeAOF")
+	type helperInfo struct {
+		fi       *FuncInfo
+		fg       *FlowGraph
+		captures []Loc // appends to shrinklog
+		grows    []Loc // stores to aofbuf
+	}
+	hinfo := map[*types.Func]*helperInfo{}
+	helperOf := func(call *ast.CallExpr) *helperInfo {
+		f := callee(info, call)
+		if f == nil || f == fn.Obj || !helpers[f] {
+			return nil
+		}
+		if h, ok := hinfo[f]; ok {
+			return h
+		}
+		fi := c.FuncOf(f)
+		if fi == nil || fi.Decl.Body == nil {
+			hinfo[f] = nil
+			return nil
+		}
+		h := &helperInfo{fi: fi, fg: newFlowGraph(fi.Info(), fi.Decl.Body)}
+		h.captures = h.fg.Find(func(n ast.Node) bool {
+			as, ok := n.(*ast.AssignStmt)
+			return ok && len(as.Lhs) == 1 && selField(fi.Info(), as.Lhs[0]) == shrinklog
+		})
+		h.grows = h.fg.Find(func(n ast.Node) bool {
+			as, ok := n.(*ast.AssignStmt)
+			return ok && len(as.Lhs) == 1 && selField(fi.Info(), as.Lhs[0]) == aofbuf
+		})
+		hinfo[f] = h
+		return h
+	}
+	// the capture in writeAOF: the test of s.shrinking that guards an inline append, or the call of a helper
+	// that appends to shrinklog
 	tests := fg.Find(func(n ast.Node) bool {
 		se, ok := n.(*ast.SelectorExpr)
 		return ok && selField(info, se) == shrinking
@@ -49,7 +95,21 @@ func ruleShrinklogCapture(c *Ctx) {
 			testLoc = Loc{t.Block, len(t.Block.Nodes) - 1, cond}
 		}
 	}
-	// an append to aofbuf: a direct store, or a call of a helper whose (synchronous) effects write it
+	var captureHelper *helperInfo
+	if !testLoc.Valid() {
+		for _, l := range fg.Find(func(n ast.Node) bool {
+			call, ok := n.(*ast.CallExpr)
+			if !ok {
+				return false
+			}
+			h := helperOf(call)
+			return h != nil && len(h.captures) > 0
+		}) {
+			testLoc = fg.LocOfOuter(l.Node)
+			captureHelper = helperOf(l.Node.(*ast.CallExpr))
+		}
+	}
+	// an append to aofbuf: a direct store, or a call of a function whose (synchronous) effects write it
 	mu := c.muLK()
 	grows := fg.Find(func(n ast.Node) bool {
 		if as, ok := n.(*ast.AssignStmt); ok && len(as.Lhs) == 1 && selField(info, as.Lhs[0]) == aofbuf {
@@ -68,30 +128,66 @@ func ruleShrinklogCapture(c *Ctx) {
 		as, ok := n.(*ast.AssignStmt)
 		return ok && len(as.Lhs) == 1 && selField(info, as.Lhs[0]) == shrinklog
 	})
-	if !testLoc.Valid() || len(grows) == 0 || len(logs) == 0 {
+	if !testLoc.Valid() || len(grows) == 0 || (len(logs) == 0 && captureHelper == nil) {
 		c.bad("anchors", fn.Decl.Pos(), "writeAOF has no test of s.shrinking, no append to aofbuf or no append to shrinklog")
 		return
 	}
 	okDom := true
 	for _, g := range grows {
-		if !fg.Dominates(testLoc, g) {
+		if !fg.Dominates(testLoc, fg.LocOfOuter(g.Node)) && !fg.Dominates(testLoc, g) {
 			okDom = false
 		}
 	}
-	c.check(okDom, "test-dominates-live-append", testLoc.Node.Pos(), "the s.shrinking test dominates every append to aofbuf", "aofbuf can grow on a path that never tests s.shrinking: the command is missing from the shrink log")
+	// a helper captures on every path on which a rewrite is running
+	if captureHelper != nil {
+		hfi := captureHelper.fi
+		sc := atomsOnly(func(inf *types.Info, body ast.Node) func(e ast.Expr) byte {
+			return func(e ast.Expr) byte {
+				if se, ok := ast.Unparen(e).(*ast.SelectorExpr); ok && selField(inf, se) == shrinking {
+					return '1'
+				}
+				return '?'
+			}
+		})
+		skip, _ := c.scenReach(captureHelper.fg, hfi.Decl.Body, sc, Loc{}, func(l Loc) bool {
+			_, ok := l.Node.(*ast.ReturnStmt)
+			return ok || l.Block.Succs == nil && l.Idx == len(l.Block.Nodes)-1
+		}, func(l Loc) bool {
+			for _, cp := range captureHelper.captures {
+				if cp.Block == l.Block && cp.Idx == l.Idx {
+					return true
+				}
+			}
+			return false
+		})
+		if skip {
+			okDom = false
+		}
+	}
+	c.check(okDom, "test-dominates-live-append", testLoc.Node.Pos(), "the s.shrinking test (inline, or in the helper that captures) precedes every append to aofbuf on every path", "aofbuf can grow on a path that never tests s.shrinking (or the capturing helper can return without capturing while a rewrite runs): the command is missing from the shrink log")
 	// the converse: the live log receives the command whether or not a rewrite is running — until the final swap the
 	// old file is the only durable copy of what was acknowledged during the rewrite
 	indep := true
 	var depAt ast.Node
 	for _, g := range grows {
 		for _, f := range fg.DominatingFacts(g) {
-			ast.Inspect(f.E, func(n ast.Node) bool {
-				if se, ok := n.(*ast.SelectorExpr); ok && selField(info, se) == shrinking {
-					indep = false
-					depAt = g.Node
+			if mentionsShrinking(info, f.E) {
+				indep = false
+				depAt = g.Node
+			}
+		}
+		// inside a helper: the guards of its own stores to aofbuf
+		if call, ok := g.Node.(*ast.CallExpr); ok {
+			if h := helperOf(call); h != nil {
+				for _, hg := range h.grows {
+					for _, f := range h.fg.DominatingFacts(hg) {
+						if mentionsShrinking(h.fi.Info(), f.E) {
+							indep = false
+							depAt = hg.Node
+						}
+					}
 				}
-				return true
-			})
+			}
 		}
 	}
 	pos := testLoc.Node.Pos()
@@ -105,16 +201,28 @@ func ruleShrinklogCapture(c *Ctx) {
 		base[factStr(f)] = true
 	}
 	var extra []string
-	for _, f := range fg.DominatingFacts(logs[0]) {
-		if base[factStr(f)] {
-			continue
+	var logPos ast.Node
+	if captureHelper != nil {
+		logPos = captureHelper.captures[0].Node
+		for _, f := range captureHelper.fg.DominatingFacts(captureHelper.captures[0]) {
+			if !f.Neg && selField(captureHelper.fi.Info(), f.E) == shrinking {
+				continue
+			}
+			extra = append(extra, factStr(f))
 		}
-		if !f.Neg && selField(info, f.E) == shrinking {
-			continue
+	} else {
+		logPos = logs[0].Node
+		for _, f := range fg.DominatingFacts(logs[0]) {
+			if base[factStr(f)] {
+				continue
+			}
+			if !f.Neg && selField(info, f.E) == shrinking {
+				continue
+			}
+			extra = append(extra, factStr(f))
 		}
-		extra = append(extra, factStr(f))
 	}
-	c.check(len(extra) == 0, "shrinklog-guarded-only-by-flag", logs[0].Node.Pos(), "the shrinklog append is guarded by s.shrinking alone", fmt.Sprintf("the shrinklog append is additionally guarded by %v: some logged commands are not captured", extra))
+	c.check(len(extra) == 0, "shrinklog-guarded-only-by-flag", logPos.Pos(), "the shrinklog append is guarded by s.shrinking alone", fmt.Sprintf("the shrinklog append is additionally guarded by %v: some logged commands are not captured", extra))
 }
 
 func factStr(f Fact) string {
